@@ -501,6 +501,25 @@ func c19Check(c c19Case) *Violation {
 			pi = guard(func() { r = gts.LocationLess(a, b) })
 			return
 		}
+		// the order depends on where locations lie relative to each other, not on how far from the origin they are:
+		// the same locations moved by 2^31-2, 2^31, 2^32+7, 2^53 or 2^62 compare the same way
+		for _, off := range []int{1<<31 - 2, 1 << 31, 1<<32 + 7, 1 << 53, 1 << 62} {
+			for _, x := range c.Triple {
+				for _, y := range c.Triple {
+					ab, pi := less(toGts(x), toGts(y))
+					if pi != nil {
+						return panicViolation("LocationLess", pi)
+					}
+					sab, pi := less(toGts(shiftLoc(x, off)), toGts(shiftLoc(y, off)))
+					if pi != nil {
+						return panicViolation(fmt.Sprintf("LocationLess of locations moved by %d", off), pi)
+					}
+					if ab != sab {
+						return viol("order-translation", "LocationLess(%s, %s) = %v, but moved by %d: LocationLess(%s, %s) = %v", toGts(x), toGts(y), ab, off, toGts(shiftLoc(x, off)), toGts(shiftLoc(y, off)), sab)
+					}
+				}
+			}
+		}
 		for i, a := range locs {
 			if r, pi := less(a, a); pi != nil {
 				return panicViolation("LocationLess", pi)
